@@ -145,6 +145,7 @@ ODD_PARAMS = [
     ("sram", {"size": 4, "data_width": 8, "init": [256]}), ("sram", {"size": True, "data_width": 8}), ("sram", {"size": 8, "data_width": 8, "writable": 0}),
     ("evmon", {"n": 0, "data_width": 1}), ("evmon", {"n": 3, "data_width": 8, "alignment": 9}), ("evmon", {"n": 3, "data_width": 8, "alignment": 10}), ("evmon", {"n": 2, "data_width": True}),
     ("evmon", {"n": 2, "data_width": 8, "trigger": "rise"}),
+    ("evmon", {"n": 1, "plain_monitor": True, "late_add": True}), ("evmon", {"n": 2, "data_width": 8, "late_add": True}), ("evmon", {"n": 8, "data_width": 8, "late_add": True}),
     ("gpio", {"pin_count": 1, "addr_width": 2, "data_width": 8}), ("gpio", {"pin_count": 64, "addr_width": 8, "data_width": 8, "input_stages": 0}),
     ("gpio", {"pin_count": 3, "addr_width": 4, "data_width": 8, "input_stages": True}), ("gpio", {"pin_count": True, "addr_width": 4, "data_width": 8}),
     ("bridge", {"data_width": 64, "csr_aw": 1, "csr_dw": 8}), ("bridge", {"data_width": 24, "csr_aw": 4, "csr_dw": 8}), ("bridge", {"data_width": 8, "csr_aw": 4, "csr_dw": 16}),
@@ -184,10 +185,20 @@ def build_odd(cfg):
             c = WishboneSRAM(**kw); return c, c.wb_bus.memory_map
         if what == "evmon":
             n = kw.pop("n")
+            late = kw.pop("late_add", False)
+            plain = kw.pop("plain_monitor", False)
             emap = event.EventMap()
             for i in range(n):
                 emap.add(event.Source(path=(f"e{i}",)))
-            c = csr.event.EventMonitor(emap, **kw); return c, c.bus.memory_map
+            c = event.Monitor(emap) if plain else csr.event.EventMonitor(emap, **kw)
+            if late:
+                # a source added to the user's event map AFTER the monitor was built from it: refused (the map is frozen) - or, if it is
+                # accepted, the monitor must still elaborate (accepted calls never end in an internal error)
+                try:
+                    emap.add(event.Source(path=("late",)))
+                except ValueError:
+                    pass
+            return c, (None if plain else c.bus.memory_map)
         if what == "gpio":
             c = gpio.Peripheral(**kw); return c, c.bus.memory_map
         if what == "bridge":
